@@ -1,5 +1,6 @@
 import MqttVerif.Conn.Step
 import MqttVerif.Monitors
+import MqttVerif.Conn.Lemmas.Resend
 /-!
 # Helper lemmas for C15 — the keep-alive timer flags and timer events
 
@@ -131,6 +132,10 @@ macro "sameTV(" a:term "," b:term ")" : term =>
 
 @[simp] theorem releaseIfUsed_tv (c : C) (id : Nat) : sameTV(releaseIfUsed c id, c) := by
   unfold releaseIfUsed; split <;> simp
+
+/-- fix 1d0ef05: a send refused before its handler pushes an error and possibly a release -/
+@[simp] theorem refuseSend_tv (c : C) (e : Nat) (p : Pkt) : sameTV(refuseSend c e p, c) := by
+  unfold refuseSend; split <;> simp
 
 @[simp] theorem clearStoreRelated_tv (c : C) : sameTV(clearStoreRelated c, c) := by
   simp [clearStoreRelated]
@@ -325,6 +330,12 @@ theorem refresh_inv {a P c} (h : Inv a P c) : Inv a P (refreshPingreqRecv c) := 
     · intro _ q; exact absurd q hc.2
     · intro _ q; exact absurd q hc.2
   · exact h
+
+/-- fix 999e935: `send_stored` followed, when something was resent, by the keep-alive re-arm -/
+theorem resendStored_inv {a P c} (h : Inv a P c) (hs : c.s.status ≠ .disconnected) :
+    Inv a P (resendStored c) :=
+  resendStored_ind (Q := fun x => Inv a P x) c (by frame_inv h)
+    (fun h' => spp_inv h' (by simpa using hs))
 
 /-! ## process_send_* -/
 
@@ -529,8 +540,8 @@ theorem processSend_inv {a P c} (h : Inv0 a P c) (p : Pkt) : Inv a P (processSen
 
 theorem send_inv {a P c} (h : Inv0 a P c) (p : Pkt) : Inv a P (send c p) := by
   unfold send; (repeat' split)
-  · exact (h.err _).inv
-  · exact (h.err _).inv
+  · exact (by frame_inv h : Inv0 a P (refuseSend c _ p)).inv
+  · exact (by frame_inv h : Inv0 a P (refuseSend c _ p)).inv
   · exact processSend_inv h p
 
 end MqttVerif.Conn
